@@ -6,6 +6,7 @@ import (
 	"encoding/hex"
 	"fmt"
 	"os"
+	"reflect"
 	"testing"
 	"time"
 
@@ -106,6 +107,63 @@ func c14Fixed() [][]byte {
 		}
 		out = append(out, append(b, 'Z'))
 		out = append(out, []byte{'C', 4, 'b', 'e', 'a', 'n', 'I', 0, 0x10, 0, 0})
+	}
+	// "billion laughs": l1 = [l0, l0], l2 = [l1, l1], ... as lists and as maps, typed and untyped
+	for _, depth := range []int{20, 24, 40} {
+		for _, typed := range []bool{true, false} {
+			var b []byte
+			if typed {
+				b = append(b, 0x71, 5, '[', 't', 'r', 'e', 'e')
+			} else {
+				b = append(b, 0x79)
+			}
+			for i := depth; i >= 1; i-- {
+				b = append(b, 0x7a)
+			}
+			b = append(b, 0x78)
+			for i := 1; i <= depth; i++ {
+				b = append(b, 0x51)
+				b = append(b, encInt(int32(depth+1-(i-1)))...)
+			}
+			out = append(out, b)
+			var m []byte
+			if typed {
+				m = append(m, 'M', 1, 'j')
+			} else {
+				m = append(m, 'H')
+			}
+			for i := depth; i >= 1; i-- {
+				m = append(m, 1, 'a', 'H')
+			}
+			m = append(m, 'Z')
+			for i := 1; i <= depth; i++ {
+				m = append(m, 1, 'b', 0x51)
+				m = append(m, encInt(int32(depth-(i-1)))...)
+				m = append(m, 'Z')
+			}
+			out = append(out, m)
+		}
+	}
+	// a list and a map that contain themselves, then an instance of every zoo class whose fields
+	// are all back-references to them: cyclic values arriving in typed fields of every kind
+	for _, typ := range zoo.StructTypes {
+		zero, perr := zoo.Project(reflect.New(typ).Interface(), nil)
+		if perr != nil || zero.K != av.Object {
+			continue
+		}
+		selfList := &av.V{K: av.List}
+		selfList.Elems = []*av.V{selfList, av.IntV(1)}
+		selfMap := &av.V{K: av.Map}
+		selfMap.Elems = []*av.V{av.StringV("self"), selfMap}
+		obj := &av.V{K: av.Object, Type: zero.Type, Fields: zero.Fields}
+		for i := range zero.Fields {
+			if i%2 == 0 {
+				obj.Elems = append(obj.Elems, selfList)
+			} else {
+				obj.Elems = append(obj.Elems, selfMap)
+			}
+		}
+		out = append(out, refcodec.Encode(&av.V{K: av.List, Elems: []*av.V{selfList, selfMap, obj}}, refcodec.Canonical{}, refcodec.EncOptions{}))
 	}
 	// nesting as deep as the input is long: cost must stay proportional to the input
 	for _, tag := range []byte{0x57, 'H', 0x79, 0x55, 'M'} {
